@@ -51,7 +51,7 @@ type Cmp struct {
 }
 
 func (c *Cmp) near(a, b float64) bool {
-	return math.Abs(a-b) <= 1e-9*math.Max(ref.Scale, math.Max(math.Abs(a), math.Abs(b)))
+	return math.Abs(a-b) <= ref.Rel*math.Max(ref.Scale, math.Max(math.Abs(a), math.Abs(b)))
 }
 
 // Gt is a > b.
